@@ -72,6 +72,17 @@ type rigObj struct {
 
 func (o *rigObj) FocusObjs() []any { return o.rig.FocusObjs() }
 
+// Boundary: macro steps (schedule entries `tid*`, used by the failing-schedule search only) end right
+// before an operation on the dispatch state, a ready-queue operation, a mailbox linearisation point or
+// the handler.
+func (o *rigObj) Boundary(label string) bool {
+	switch label {
+	case "Load:v", "CAS:v", "Store:v", "take", "Call:schedule", "Call:reschedule", "Recv", "Load:next", "Swap:tail":
+		return true
+	}
+	return false
+}
+
 func (o *rigObj) Do(tid int, op string) string {
 	ctx := context.Background()
 	switch {
